@@ -2,8 +2,11 @@
    (`Theorem ... exact ...` + `Print Assumptions`).
 
    Model:  Codegen/LowerBoolModel.v  `lower_branch` = hidc's `bool_expr_branch` on F_model
-           (comparisons of int literals / int locals, bool literals, bool locals, not, and, or),
-           tied TEXTUALLY to the compiler by tools/corr_lowerbool.py (labels included).
+           (comparisons of int literals / int locals / + - * arithmetic over them, bool literals,
+           bool locals, not, and, or), tied TEXTUALLY to the compiler by tools/corr_lowerbool.py
+           (labels included).
+   F_proved (what `vars_ok` accepts): all of F_model except arithmetic operands, i.e. comparisons
+           of SAFE operands (literals, locals) -- the fragment DESIGN C01 item 2 names.
    Proofs: Codegen/LowerBoolProofs.v.  All statements: every expression tree (unbounded depth),
            every word size w >= 2, arbitrary surrounding code (`code` is constrained only where the
            resolved block sits), arbitrary base address B, every well-formed frame.
@@ -113,8 +116,9 @@ Theorem C09_value_lowering_correct e rout st B m :
   runs (mk B m) [] (mk (B + size C) m'') /\ Machine.lw w m'' (regaddr R rout) = v.
 Proof. exact (@value_lowering_correct w Hw code cmem R E ext ext_range e rout st B m). Qed.
 
-Theorem C09_value_lowering_keep_correct e off st B m :
-  let C := fst (value_lowering_keep E e off st) in
+Theorem C09_value_lowering_keep_correct e st B m :
+  let off := stack_top E + 1 in
+  let C := fst (value_lowering_keep E e st) in
   code_at code B (resolve R ext B C) ->
   0 <= B -> B + size C < Machine.W w ->
   layout_ok w R m -> vars_ok w R E m e ->
@@ -122,7 +126,7 @@ Theorem C09_value_lowering_keep_correct e off st B m :
   let v := if beval w R E m e then 1 else 0 in
   let m'' := Machine.sb (run_mem w R E e m) (FP w R m - off) v in
   runs (mk B m) [] (mk (B + size C) m'') /\ lb m'' (FP w R m - off) = v.
-Proof. exact (@value_lowering_keep_correct w Hw code cmem R E ext ext_range e off st B m). Qed.
+Proof. exact (@value_lowering_keep_correct w Hw code cmem R E ext ext_range e st B m). Qed.
 End P.
 
 (* the numbering discipline: every label the block defines is fresh (allocated by this call) and
@@ -132,6 +136,14 @@ Theorem C01_lower_branch_labels_fresh E e kt kf st C st' :
   deflabels kt = [] -> deflabels kf = [] ->
   st_le st st' /\ Forall (between st st') (deflabels C) /\ NoDup (deflabels C).
 Proof. exact (@lower_branch_defs E e kt kf st C st'). Qed.
+
+(* short-circuit: a deciding left operand leaves no trace of the right one *)
+Theorem C01_short_circuit_and w R E m e1 e2 : beval w R E m e1 = false ->
+  trace w R E m (BAnd e1 e2) = trace w R E m e1 /\ run_mem w R E (BAnd e1 e2) m = run_mem w R E e1 m.
+Proof. exact (@short_circuit_and w R E m e1 e2). Qed.
+Theorem C01_short_circuit_or w R E m e1 e2 : beval w R E m e1 = true ->
+  trace w R E m (BOr e1 e2) = trace w R E m e1 /\ run_mem w R E (BOr e1 e2) m = run_mem w R E e1 m.
+Proof. exact (@short_circuit_or w R E m e1 e2). Qed.
 
 (* satisfiability of the hypotheses (w = 2, hidc's register layout) *)
 Example C01_branch_lowering_sat :
@@ -157,6 +169,8 @@ Print Assumptions C01_lowering_correct_gen.
 Print Assumptions C09_value_lowering_correct.
 Print Assumptions C09_value_lowering_keep_correct.
 Print Assumptions C01_lower_branch_labels_fresh.
+Print Assumptions C01_short_circuit_and.
+Print Assumptions C01_short_circuit_or.
 Print Assumptions C01_branch_lowering_sat.
 Print Assumptions C01_if_block_lowering_sat.
 Print Assumptions C09_value_lowering_sat.
